@@ -21,3 +21,18 @@ Definition spec_encode_case (t : ty) (v : value) (obs_le obs_be : bytes) : list 
   let l := legal t in let w := wt t v in
   let a := beq (wire LE t v) obs_le in let b := beq (wire BE t v) obs_be in
   if l && w && a && b then [] else [b2z l; b2z w; b2z a; b2z b] ++ wire LE t v.
+
+From Prophy Require Import Src PyStatics PyEncode.
+
+(* model correspondence for one encode case: observed = [0; bytes] or [exception code] *)
+Definition model_encode_case (t : ty) (v : value) (obs_le obs_be : list Z) : list Z :=
+  let a := res_bytes_flat (py_enc LE t v) in
+  let b := res_bytes_flat (py_enc BE t v) in
+  if beq a obs_le && beq b obs_be then [] else 99 :: a.
+
+(* statics of a struct/union class: [size; align; dynamic; unlimited] *)
+Definition model_statics (t : ty) : list Z :=
+  [py_sizeof t; py_align t; b2z (py_dynamic t); b2z (py_unlimited t)].
+
+Definition spec_statics (t : ty) : list Z :=
+  [size t; align t; b2z (negb (is_fixed t)); b2z (stiff_eqb (stiffness t) Unlimited)].
